@@ -141,6 +141,44 @@ MANIFEST_TEXT.update({
     "C03": {"level_text": "fault enumeration: for each sampled scenario every intercepted call of the fault-free census fails once with each errno of its kind's set (plus short/EOF variants), and pairs are sampled; invariants per run: real exec reached exactly once with the caller's result delivered, no simulated call that would wait for a peer (send on a full queue with neither O_NONBLOCK nor MSG_DONTWAIT, syslog(), sleep/poll/lock), no SIGPIPE-raising write, step bound 4 x census + 64, no sanitizer abort", "level_note": _ASSUME + "; allocation failure is outside the domain; EPIPE raises no SIGPIPE on AF_UNIX datagram sockets (probed on this kernel)"},
     "C16": {"level_text": "before/at-exec/after snapshots of descriptors (simulated and real), library-attributed live heap, environ, cwd, umask, signal mask and handlers over repeated calls, fault-free and under the single-fault enumeration of C03, in both builds", "level_note": _ASSUME + "; heap attribution = allocations made while the calling thread is inside the library (sanitizer hooks), one warm-up call excluded"},
 })
+CHECKS.update({
+    "C09": {
+        "variants": ["tsan-ts", "asan-ts"], "level": "exploration", "claims_sanitizer": True,
+        "quick": T(6000, 80), "thorough": T(200000, 900),
+        "rule": "one run = Batch of 2-4 caller threads (thorough: 1 in 50 runs 16-64 threads) each making 1-3 failing wrapped execs with distinct markers, under a seeded schedule that decides the running thread at every scheduling point (mutex lock/unlock before and after, pthread_once, every simulated syscall, call entry/exit); policy per run: random walk, PCT with d priority-change points, long park (seeded thread and point), or single-park enumeration (consecutive seeds park thread t at its k-th point for every (t, k) and run the others to completion); then one lone call. "
+                "tsan-ts: ThreadSanitizer report with a libsnoopy frame (scheduler hand-off is invisible to TSan); both: deadlock, record content per thread, foreign markers, snoopy_threads in [1,n] during the batch and 1 afterwards. non-trivial = at least two threads inside the library at overlapping times; distinct = hash of the schedule trace",
+        "probes": ["long_park", "park_enumeration", "pct_d1", "pct_d2", "blocked_on_mutex"],
+        "assumptions": ["sampling of schedules, not systematic enumeration with a preemption bound", "interleavings inside a region without any intercepted call are not executed; such regions are covered by TSan's happens-before analysis only", "races on memory touched only inside uninstrumented libc are invisible"],
+    },
+    "C10": {
+        "variants": ["asan-ts"], "level": "exploration",
+        "quick": T(1600, 70), "thorough": T(32000, 900),
+        "rule": "families of 160 seeds per output type: slot 0 = census of the scheduling points thread B passes inside one wrapped call; slot k = a real fork() taken by thread A exactly when B is parked at its k-th scheduling point (every point, in particular those where B owns the registry mutex), the child then makes a wrapped exec call and reports its history over a pipe; remaining slots = sampled points with a grandchild fork. fork handlers registered by the library (pthread_atfork -> __register_atfork) are run as library code. "
+                "non-trivial = fork happened while B was inside the library; distinct = (mode, fork point, output)",
+        "probes": ["census", "grandchild", "atfork_handlers", "forker_waited_for_mutex"],
+    },
+    "C11": {
+        "variants": ["asan-ts", "asan-nots"], "level": "exploration",
+        "quick": T(8000, 70), "thorough": T(150000, 900),
+        "rule": "one run = history of 2-8 (thorough: 2-30) calls in one simulated process; before each call the config file is rewritten (each option present with probability 1/2, valid and invalid values), emptied, corrupted, deleted, made unreadable or left alone; "
+                "oracle = differential: call k is re-run as the first call of a pristine library image (.data/.bss restored) in the same simulated OS state and must produce the same records at the same sinks; ASan for double frees; library-attributed live heap must not grow. non-trivial = at least 2 calls; distinct = sequence of config classes",
+        "probes": ["deleted", "unreadable", "corrupted", "emptied"],
+    },
+    "C17": {
+        "variants": ["asan-ts"], "level": "exploration",
+        "quick": T(4000, 70), "thorough": T(100000, 900),
+        "rule": "one run = 2-6 (thorough: 2-16) writer threads, each logging 1-3 (1-5) records of 1 byte .. the configured maximum (boundary sizes 4096, 8192, limit) to the same file with pre-existing content (also devtty/devnull), the scheduler switching writers at every simulated open/write/close; "
+                "structural: description opened O_APPEND without O_TRUNC and the record delivered by exactly one write; historical: final content = old content + permutation of whole records. non-trivial = writers overlapped; distinct = hash of the (writer, syscall) interleaving",
+        "probes": ["record_ge_4096", "record_ge_65536", "16_writers"],
+        "assumptions": ["simulated st_blksize / stdio buffer 4096", "writers are threads of one process; separate processes differ only in not sharing the registry, which is never held during output"],
+    },
+})
+MANIFEST_TEXT.update({
+    "C09": {"level_text": "seeded schedule search over real caller threads parked and released one at a time at every intercepted synchronisation and I/O point; ThreadSanitizer build reports unsynchronised accesses under the serialised schedule (happens-before, scheduler invisible), AddressSanitizer build catches memory errors under the same schedules; deadlock detected exactly (no runnable thread); per-thread record content and registry emptiness judged against the model", "level_note": _ASSUME + "; the mutex/once used by tsrm.c are the scheduler's (recursive ownership by thread id)"},
+    "C10": {"level_text": "schedule enumeration: a real fork() placed at every scheduling point a second thread passes inside the library; in the child, blocking on a mutex copy owned by a thread that does not exist there is detected at once (no timeout)", "level_note": _ASSUME + "; mutex state lives in the caller's pthread_mutex_t bytes so fork copies it as it copies a real one"},
+    "C11": {"level_text": "seeded histories of configuration changes in both builds with a differential oracle against a pristine instance of the library (writable segments restored) in the same simulated OS state", "level_note": _ASSUME},
+    "C17": {"level_text": "seeded schedules of 2-16 writers switching at every simulated system call; decided per record by the system calls used (one write on an O_APPEND description) and by the final file content", "level_note": _ASSUME},
+})
 for _e in list(NOT_APPLICABLE):
     if _e["property_id"] in CHECKS:
         NOT_APPLICABLE.remove(_e)
